@@ -175,8 +175,7 @@ impl Serializer {
         r is Ok ==> appended(*old(self), *final(self)),
         r is Ok && old(self).is_array_elem is False && old(self).non_native_type is None ==> var_encoding(0xa0, 0xb0, v@, added(*old(self), *final(self))),        // [C05.binary.encoding] [C03.rt.encoder-premise] binary is vbin8 / vbin32: constructor, size = number of octets, octets
         r is Ok && !(old(self).is_array_elem is False) && old(self).non_native_type is None ==> var_array_elem(0xb0, old(self).is_array_elem, v@, added(*old(self), *final(self))),   // [C05.binary.array-element] [C03.rt.encoder-premise]
-        r is Ok && (old(self).non_native_type == Some(NonNativeType::Uuid) || old(self).non_native_type == Some(NonNativeType::Dec32) || old(self).non_native_type == Some(NonNativeType::Dec64)
-            || old(self).non_native_type == Some(NonNativeType::Dec128) || old(self).non_native_type is None) ==> final(self).non_native_type is None,   // [C03.ser.marker-cleared] uuid / decimal markers are one-shot: the next value (e.g. the value of a map entry whose key was a uuid) is written as itself
+        r is Ok ==> final(self).non_native_type is None,   // [C03.ser.marker-cleared] uuid / decimal / lazy-value markers are one-shot (D83: the lazy-value marker was not): the next value (e.g. the value of a map entry whose key was a uuid) is written as itself
         r is Ok && old(self).non_native_type is None && v@.len() <= 0xffff_ffff ==> added(*old(self), *final(self)).len() == var_size(old(self).is_array_elem, v@.len() as int),   // [C20.size.binary-written]
         r is Ok && old(self).non_native_type == Some(NonNativeType::Uuid) ==> added(*old(self), *final(self)) =~= (if old(self).is_array_elem is OtherElement { Seq::<u8>::empty() } else { seq![0x98u8] }) + v@,      // [C05.uuid.encoding] [C03.rt.encoder-premise] fixed-width values handed over as bytes: constructor (once per array) + the bytes
         r is Ok && old(self).non_native_type == Some(NonNativeType::Dec32) ==> added(*old(self), *final(self)) =~= (if old(self).is_array_elem is OtherElement { Seq::<u8>::empty() } else { seq![0x74u8] }) + v@,   // [C05.decimal.encoding] [C03.rt.encoder-premise]
@@ -228,6 +227,7 @@ impl SizeSerializer {
     ensures
         r is Ok && old(self).non_native_type is None ==> r->Ok_0 == var_size(old(self).is_array_element, v@.len() as int),   // [C20.size.binary]
         r is Ok && old(self).non_native_type == Some(NonNativeType::LazyValue) ==> r->Ok_0 == v@.len(),                     // [C20.size.lazy]
+        r is Ok && old(self).non_native_type == Some(NonNativeType::LazyValue) ==> final(self).non_native_type is None,     // [C20.size.marker-cleared] the size twin drops the lazy-value marker where the writer drops it (D83), or the next value is sized as raw bytes
         r is Ok && !(old(self).non_native_type is None) && !(old(self).non_native_type == Some(NonNativeType::LazyValue))
             ==> r->Ok_0 == v@.len() + (if old(self).is_array_element is OtherElement { 0int } else { 1int }),                 // [C20.size.fixed-as-bytes] uuid / decimals: constructor (once per array) + the bytes
 //@@ end
@@ -284,7 +284,7 @@ impl ValueSerializer {
         r is Ok && old(self).non_native_type == Some(NonNativeType::Timestamp) ==> r->Ok_0 == Value::Timestamp(v),   // [C20.value.timestamp]
 //@@ end
 
-//@@ fn file=serde_amqp/src/value/ser.rs impl=`~ser::Serializer for &'a mut Serializer` name=serialize_bytes as=value_serialize_bytes
+//@@ fn file=serde_amqp/src/value/ser.rs impl=`~ser::Serializer for &'a mut Serializer` name=serialize_bytes as=value_serialize_bytes dropuses
 //@@ selfmut
 //@@ qmark
 //@@ orsplit
@@ -294,11 +294,11 @@ impl ValueSerializer {
 //@@ subst `Value::Decimal64(Dec64::try_from(v)?)` => `fixed_value(1, v)?` rule=R16
 //@@ subst `Value::Decimal128(Dec128::try_from(v)?)` => `fixed_value(2, v)?` rule=R16
 //@@ subst `Value::Uuid(Uuid::try_from(v)?)` => `fixed_value(3, v)?` rule=R16
-//@@ subst `use serde::Deserialize; let reader = SliceReader::new(v); let mut de = crate::de::Deserializer::new(reader); let value = Value::deserialize(&mut de)?; Ok(value)` => `lazy_to_value(v)` rule=R9
+//@@ subst `let reader = SliceReader::new(v); let mut de = crate::de::Deserializer::new(reader); let value = Value::deserialize(&mut de)?; Ok(value)` => `lazy_to_value(v)` rule=R9
 //@@ subst `Error::InvalidValue` => `VError::InvalidValue` rule=R11
 //@@ spec
     ensures
-        r is Ok && !(old(self).non_native_type == Some(NonNativeType::LazyValue)) ==> final(self).non_native_type is None,   // [C20.value.marker-cleared] uuid / decimal markers are one-shot: the value of a map entry whose key was a uuid is what IT is (a binary stays a binary), as when going through bytes
+        r is Ok ==> final(self).non_native_type is None,   // [C20.value.marker-cleared] uuid / decimal / lazy-value markers are one-shot (D83): the value of a map entry whose key was a uuid is what IT is (a binary stays a binary), as when going through bytes
         r is Ok && old(self).non_native_type is None ==> r->Ok_0 == Value::Binary(v@),
         r is Ok && old(self).non_native_type == Some(NonNativeType::Uuid) ==> r->Ok_0 == Value::Uuid(v@),             // [C20.value.uuid]
         r is Ok && old(self).non_native_type == Some(NonNativeType::Dec32) ==> r->Ok_0 == Value::Decimal32(v@),
